@@ -1,0 +1,31 @@
+//go:build verif
+
+// Package verifhook provides observation/gate points for the verification
+// harnesses under /verif. With the build tag "verif" off, Point is an empty
+// function and Enabled is false.
+package verifhook
+
+import "sync/atomic"
+
+const Enabled = true
+
+type HandlerFunc func(point string, kv ...interface{})
+
+var handler atomic.Value // of HandlerFunc
+
+// SetHandler installs (or, with nil, removes) the handler called at every Point.
+func SetHandler(h HandlerFunc) {
+	if h == nil {
+		handler.Store(HandlerFunc(func(string, ...interface{}) {}))
+		return
+	}
+	handler.Store(h)
+}
+
+// Point reports that the calling goroutine reached the named point. The
+// handler may block: a point is both a trace record and a scheduler gate.
+func Point(point string, kv ...interface{}) {
+	if h, ok := handler.Load().(HandlerFunc); ok && h != nil {
+		h(point, kv...)
+	}
+}
